@@ -18,7 +18,7 @@ Definition dop_atom (lg : bool) (i : nat) (a : atom) : option sx :=
       if all_zero al || Bool.eqb l lg then Some (SAt (AFld lg f c s (bump i al)))
       else None                       (* mixed physical/logical chain: not modelled *)
   | AMap m j al => if lg then Some (SAt (AMap m j (bump i al))) else None
-  | ACoord l j => if Bool.eqb l lg then Some (if Nat.eqb i j then sZ 1 else sZ 0) else None
+  | ACoord l j => if Bool.eqb l lg then Some (if Nat.eqb i j && Nat.ltb j 3 then sZ 1 else sZ 0) else None
   | AConst _ => Some (sZ 0)
   | ANormal _ _ => None
   end.
